@@ -333,6 +333,22 @@ Definition within_bound (c : cfg) (n elapsed : N) : bool :=
   (n * c_window c <=? c_burst c * c_window c + c_max c * elapsed) &&
   ((c_window c <? elapsed) || (n <=? c_max c)).
 
+(* C14_bucket_bound on every contiguous segment of an observed run: the attempts admitted in
+   calls i..j are bounded by burst + max * (time from call i-1 to call j) / window.  [ts] must be
+   a timeline whose gaps are upper bounds of the true gaps. *)
+Fixpoint seg_from (c : cfg) (tprev : N) (ts : list N) (obs : list bool) (acc : N) : bool :=
+  match ts, obs with
+  | t :: ts', o :: obs' =>
+      let acc' := acc + (if o then 1 else 0) in
+      (acc' * c_window c <=? c_burst c * c_window c + c_max c * (t - tprev)) && seg_from c tprev ts' obs' acc'
+  | _, _ => true
+  end.
+Fixpoint segs_ok (c : cfg) (tprev : N) (ts : list N) (obs : list bool) : bool :=
+  match ts, obs with
+  | t :: ts', o :: obs' => seg_from c tprev ts obs 0 && segs_ok c t ts' obs'
+  | _, _ => true
+  end.
+
 Inductive ccase :=
 (* keyed engine, all calls inside a time span too short to earn a token: exact *)
 | CEngine (c : cfg) (tr : list (N * N)) (obs : list bool)
@@ -406,5 +422,5 @@ Definition prop_case (x : ccase) : bool :=
   | CConc c t_hi counts => forallb (fun '(k, att, adm) => within_bound c adm t_hi && (adm <=? att)) counts
   | CConcJoin jc t_hi outs => conc_join_ok jc t_hi outs
   | CRefill c t_lo t_hi obs =>
-      within_bound c (ntrue obs) (span t_hi)
+      within_bound c (ntrue obs) (span t_hi) && segs_ok c (hd 0 t_hi) t_hi obs
   end.
